@@ -143,7 +143,11 @@ Cover(pre, a, r, post, bornNow) ==
        /\ C("reopen-with-different-ordering-or-metadata-rejected",
              a.a \in {"Register", "OpenInit"} /\ r # "ok" /\ pre.A.active[own] # -1 /\ ActiveA(pre, own).st = "CLOSED"
              /\ (a.a = "OpenInit" => a.cpport = "icahost") /\ (a.a = "Register" => a.signer = a.owner)
-             /\ <<ActiveA(pre, own).order, ActiveA(pre, own).enc>> # <<a.order, a.enc>>)
+             /\ <<ActiveA(pre, own).order, ActiveA(pre, own).enc>> # <<a.order, EncOf(a.enc)>>)
+       /\ C("reopen-with-empty-version-after-non-default-metadata-rejected",
+             a.a \in {"Register", "OpenInit"} /\ r # "ok" /\ pre.A.active[own] # -1 /\ ActiveA(pre, own).st = "CLOSED"
+             /\ (a.a = "OpenInit" => a.cpport = "icahost") /\ (a.a = "Register" => a.signer = a.owner)
+             /\ a.enc = "default" /\ ActiveA(pre, own).order = a.order /\ ActiveA(pre, own).enc # EncOf(a.enc))
        /\ C("class-inflight-ack", a.a = "Ack" /\ ChanAt(pre.A.chans, a.ca).owner \in Owners /\ a.ca \in DOMAIN bornNow
              /\ pre.A.active[ChanAt(pre.A.chans, a.ca).owner] # -1 /\ bornNow[a.ca] # pre.A.active[ChanAt(pre.A.chans, a.ca).owner])
        /\ C("class-host-confirm-overwrite", a.a = "Confirm" /\ ChanAt(pre.B.chans, a.cb).owner \in Owners
